@@ -308,6 +308,21 @@ def run_case(case, R):
                         R.outcome(("glexindex", lab))
                     if amb:
                         R.stat("boundary_ambiguous")
+            # every optional argument left at its default (graded=False, reverse=False, cross_truncation=1; ordering "G" for bindex)
+            sure0, amb0 = ref_glexindex(start, stop, D, 1, False, False)
+            sureG, ambG = ref_glexindex(start, stop, D, 1, True, True)    # bindex default ordering "G": graded, reverse (no "R" in the string)
+            for lab0, f0, (su, am, g0, r0) in (("glexindex(start, stop, D)", lambda: numpoly.glexindex(start, stop, D), (sure0, amb0, False, False)),
+                                               ("glexindex(start=, stop=, dimensions=)", lambda: numpoly.glexindex(start=start, stop=stop, dimensions=D), (sure0, amb0, False, False)),
+                                               ("bindex(start, stop, D)", lambda: numpoly.bindex(start, stop, D), (sureG, ambG, True, True))):
+                R.tr()
+                try:
+                    got0 = numpy.asarray(f0())
+                except Exception as err:  # noqa: BLE001
+                    R.fail(lab0.split("(")[0], "exception", f"{lab0} start={start} stop={stop} D={D}: {type(err).__name__}: {err}", tags=[f"D={D}", "defaults"])
+                    continue
+                bad0 = compare_index_rows(got0.reshape(-1, D), su, am, g0, r0) if got0.size else (None if not su else "empty result")
+                if bad0:
+                    R.fail(lab0.split("(")[0], "wrong-value", f"{lab0} start={start} stop={stop} D={D} with defaults: {bad0}", tags=[f"D={D}", "defaults"])
             # bindex orderings (default norm and inf)
             for ordering in ("G", "GR", "R", "", "GI", "GRI", "I", "RI"):
                 for ct in (1, math.inf, 0.5):
